@@ -302,3 +302,25 @@ func specFirstIsReport(c []Packet) bool {
 
 // specCompoundValid is the sentence of RFC 3550 section 6.1 as stated in property C11.
 func specCompoundValid(c []Packet) bool { return specFirstIsReport(c) && specScan(c, 1, len(c)) }
+
+// ---- RFC 4585 section 6.2.1: generic NACK (PID, BLP): bit i of BLP stands for PID+i+1 ----
+
+// specPairCovers: does the pair request retransmission of sequence number x?
+func specPairCovers(p NackPair, x uint16) bool {
+	d := x - p.PacketID - 1 // modulo 2^16; x == PacketID gives 65535
+	return x == p.PacketID || (d < 16 && uint16(p.LostPackets)>>d&1 == 1)
+}
+
+func specPairsCover(ps []NackPair, n int, x uint16) bool {
+	if n <= 0 {
+		return false
+	}
+	return specPairsCover(ps, n-1, x) || specPairCovers(ps[n-1], x)
+}
+
+func specMember(s []uint16, n int, x uint16) bool {
+	if n <= 0 {
+		return false
+	}
+	return specMember(s, n-1, x) || s[n-1] == x
+}
